@@ -63,6 +63,11 @@ add("C02", "pbt", "adversarial input generation + fuzz-style mutation, executed 
     "2 MiB stack = tokio default worker; harness built with opt-level 2; allocation bound constants justified in DESIGN.md.",
     "DESIGN.md §7 C02")
 
+add("C16", "sched", "exhaustive schedule enumeration (stateless DFS) under a deterministic baton-passing thread scheduler + random schedules (proptest) + long sequential histories + OS-thread stress",
+    "Every interleaving of the instrumented atomic steps of 2..3 concurrent allocate()/make_reference() calls is enumerated from counter positions around the wrap point and the serial's 32-bit wrap; random schedules for up to 4 threads; 3 x 2^20 sequential allocations across three wraps with creation changes; hook-free OS-thread stress across the wrap. Oracle: pairwise distinct, never a pid the current epoch already issued, right creation, ids restart at 1, no deadlock.",
+    "Interleavings are controlled only at the sync_point hooks (cfg edp_rs_verif); a rewrite that drops the hooks is only reachable by the stress and history campaigns. The 2^32-call horizon of reference words is outside every history.",
+    "DESIGN.md §7 C16")
+
 hooks_commits = []
 try:
     out = subprocess.run(["git", "-C", "/repo", "log", "--format=%H %s"], capture_output=True, text=True).stdout
@@ -83,6 +88,10 @@ m = {
     "engines": [
         {"name": "pbt", "path": "harness/verif/src/engine.rs", "serves_properties": sorted(CHECKS),
          "kind_free_text": "seeded, sharded proptest runner + exhaustive enumerators with shrinking, known-finding split, replay files and evidence writer"},
+        {"name": "sched", "path": "harness/verif/src/sched.rs", "serves_properties": ["C16"],
+         "kind_free_text": "baton-passing deterministic scheduler for OS threads driven through the sync_point hook, stateless DFS over schedules"},
+        {"name": "isolate", "path": "harness/verif/src/isolate.rs", "serves_properties": ["C02"],
+         "kind_free_text": "isolated worker process (2 MiB-stack threads, counting allocator) so crashes and blow-ups are observed, not suffered"},
         {"name": "refmodel", "path": "harness/refmodel", "serves_properties": sorted(CHECKS),
          "kind_free_text": "independent reference model: Erlang values, ETF reader/writer, term order, MD5, protocol tables (no dependency on the crates under test)"},
     ],
